@@ -725,6 +725,10 @@ class RefClient:
     def get(self, family, ent):
         key = (family, ent)
         if key not in self.memo:
+            cached = self._cache_read(key)
+            if cached is not None:
+                self.memo[key] = cached
+                return cached
             self.req.write(json.dumps([family, ent]) + '\n')
             self.req.flush()
             line = self.res.readline()
@@ -735,7 +739,37 @@ class RefClient:
                 raise core.Inconclusive(f'reference build of {key!r} failed: {ans["error"]}')
             self.memo[key] = ans['ok']
             self.forks += 1
+            self._cache_write(key, ans['ok'])
         return self.memo[key]
+
+    # reference observations are a function of the key only: workers share them through a scratch directory of the run
+    cache_dir = None
+
+    def _cache_file(self, key):
+        import hashlib
+        return os.path.join(self.cache_dir, hashlib.sha1(json.dumps(key).encode()).hexdigest() + '.json')
+
+    def _cache_read(self, key):
+        if not self.cache_dir:
+            return None
+        try:
+            with open(self._cache_file(key), encoding='utf-8') as f:
+                rec = json.load(f)
+            return rec['obs'] if rec['key'] == json.loads(json.dumps(key)) else None
+        except (OSError, ValueError, KeyError):
+            return None
+
+    def _cache_write(self, key, obs):
+        if not self.cache_dir:
+            return
+        path = self._cache_file(key)
+        tmp = f'{path}.{os.getpid()}.tmp'
+        try:
+            with open(tmp, 'w', encoding='utf-8') as f:
+                json.dump({'key': key, 'obs': obs}, f)
+            os.replace(tmp, path)
+        except OSError:
+            pass
 
     def close(self):
         try:
@@ -749,11 +783,13 @@ class RefClient:
 _REF = [None]
 
 
-def ref_client():
+def ref_client(cache_dir=None):
     if _REF[0] is None or _REF[0].owner != os.getpid():
         rc = RefClient()
         rc.owner = os.getpid()
         _REF[0] = rc
+    if cache_dir:
+        _REF[0].cache_dir = cache_dir
     return _REF[0]
 
 
@@ -1009,9 +1045,9 @@ SPLIT = 3      # programs shorter than this are shards of their own, programs of
 
 
 def shard_fn(shard):
-    family, prefix, mode, (view, depth, min_len) = shard
+    family, prefix, mode, (view, depth, min_len), cache_dir = shard
     part = core.Part()
-    ref = ref_client()
+    ref = ref_client(cache_dir)
     state = initial_state(family)
     for st in prefix:
         state = apply_state(family, state, st, ref)
@@ -1023,24 +1059,22 @@ def shard_fn(shard):
         run_program(family, list(prefix), part, ref, parent)
     else:
         explore(family, view, list(prefix), state, depth, min_len, part, ref, parent)
-    part.extra['reference_builds'] = ref.forks - getattr(ref, 'reported', 0)
-    ref.reported = ref.forks
     return part
 
 
-def make_shards(tier):
+def make_shards(tier, cache_dir=None):
     """every program shorter than SPLIT steps is a shard of its own; every program of SPLIT steps is the root of a sub-tree
     shard.  Needs the reference (which mutations apply to which instance), computed by a helper of this (clean) process"""
-    ref = ref_client()
+    ref = ref_client(cache_dir)
     shards = []
 
     def gen(family, plan, steps, state):
         view, depth, min_len = plan
         if len(steps) >= min(SPLIT, depth):
-            shards.append((family, steps, 'subtree', plan))
+            shards.append((family, steps, 'subtree', plan, cache_dir))
             return
         if len(steps) >= min_len:
-            shards.append((family, steps, 'single', plan))
+            shards.append((family, steps, 'single', plan, cache_dir))
         for st in successors(family, view, steps, state, ref):
             gen(family, plan, steps + [st], apply_state(family, state, st, ref))
     for family, plist in plans(tier).items():
@@ -1052,8 +1086,14 @@ def make_shards(tier):
 
 
 def run(ctx):
-    shards = make_shards(ctx.tier)
-    ctx.pmap(shard_fn, shards, name='programs')
+    import shutil
+    import tempfile
+    cache_dir = tempfile.mkdtemp(prefix='c09-ref-')     # reference observations shared by the workers, removed afterwards
+    try:
+        shards = make_shards(ctx.tier, cache_dir)
+        ctx.pmap(shard_fn, shards, name='programs')
+    finally:
+        shutil.rmtree(cache_dir, ignore_errors=True)
     pl = plans(ctx.tier)
     menus = {f: {'classes': len(FAMILIES[f]['classes']),
                  'plans': [{'view': v, 'depth': d, 'configs': len(fam_view(f, v)[0]), 'mutations': len(fam_view(f, v)[1]),
